@@ -1,8 +1,10 @@
 ------------------------------ MODULE MCHttpExc ------------------------------
-(* Bounded universes for X08.  One TLC state per case (a decision table: depth 1); the invariants check the       *)
-(* implementation-shaped MODEL of HttpExc.tla against the CONTRACT, clause by clause, and the internal laws of the  *)
-(* tables.  Family selects the table (render | redirect | slash | abort), Size its depth (q | t).  The export        *)
-(* configs print every case for replay on the real classes.                                                        *)
+(* Bounded universes for X08.  The tables are decision tables (depth 1): a seed state per class / redirect group /  *)
+(* first path byte / aborter, whose successors are the cases; the invariants check the implementation-shaped MODEL  *)
+(* of HttpExc.tla against the CONTRACT, clause by clause, and the internal laws of the tables.  Family selects the   *)
+(* table (render | redirect | slash | abort | all), Size its depth (t thorough | q quick | m the cut-down tables    *)
+(* the broken variants are run on).  MCQ_* / MCT_* check, MCX_* / MCXT_* print every case for replay on the real    *)
+(* classes, MCB_<variant> must violate an invariant.                                                                *)
 EXTENDS HttpExc, TLC, Json
 
 CONSTANTS Family, Size
